@@ -33,12 +33,15 @@ def cdf_ref(x, p, lo, hi):
 
 
 def f_tol(p, lo, hi):
+    """tolerance in F-space: 1e-13 scaled by the cancellation in B - A, plus what a few ulps of the returned log-energy
+    are worth in F (F' is large on a narrow band: 4 ulp(hi) * max F')"""
     mp = 1.0 - p
+    ulp = float(np.spacing(hi))
     if mp == 0.0:
-        return 1e-13
+        return 1e-13 + 4 * ulp / (hi - lo)
     A = 10.0 ** (lo * mp)
     B = 10.0 ** (hi * mp)
-    return 1e-13 * max(1.0, max(A, B) / abs(B - A))
+    return 1e-13 * max(1.0, max(A, B) / abs(B - A)) + 4 * ulp * abs(mp) * LN10 * max(A, B) / abs(B - A)
 
 
 def t_alphabet(tier):
@@ -94,7 +97,13 @@ def judge(spec, N, t):
         if bad.any():
             i = int(np.where(bad)[0][0])
             out.append(("bounds", [lo, hi], float(logE[i])))
-        if len(stub.returned) >= 1 and np.size(stub.returned[0]) == N:
+        if len(stub.returned) > 1 and sum(int(np.size(r)) for r in stub.returned) == N:
+            stub.returned[:] = [np.concatenate([np.ravel(r) for r in stub.returned])]  # (drawn in several pieces: same thing)
+        if not (len(stub.returned) >= 1 and np.size(stub.returned[0]) == N):
+            # a power-law sample is the inverse-CDF image of ITS uniform number: a sample made without drawing one per
+            # event cannot be that (N identical energies, for instance)
+            out.append(("one_uniform_number_per_event", f"one draw of {N} uniform numbers", [int(np.size(r)) for r in stub.returned]))
+        else:
             uraw = np.asarray(stub.returned[0], dtype=np.float64).ravel()
             # the closed ends of the unit interval map to the bounds themselves (in exact arithmetic F^-1(0) = lower and
             # F^-1(1) = upper; for steep spectra the CDF is so flat at the top that a one-ulp change of u moves the
@@ -136,6 +145,8 @@ def run(ctx):
         idx = sorted(set(idx + [k * 0.125 for k in range(0, 33)]))
     bnds = [6.0, 6.5, 8.0, 11.5, 12.0]
     pairs = [(a, b) for a, b in itertools.product(bnds, bnds) if a < b]
+    # narrow but valid bands (6 <= lower < upper <= 12): the inverse CDF is as exact there as anywhere
+    pairs += [(9.0, 9.00005), (10.0, 10.0001), (11.9999, 12.0), (6.0, 6.000001), (8.0, 8.001)]
     ts = t_alphabet(tier)
     ctx.cov["alphabet"] = {"N": Ns, "index": len(idx), "bounds_pairs": len(pairs), "t": len(ts)}
     # mono
